@@ -9,7 +9,7 @@
    the core subset (side conditions discharged by the reachability invariant). *)
 From Coq Require Import List NArith ZArith String Bool Lia.
 From Slock Require Import Engine.Types Engine.Queues Engine.Timers Engine.Engine Engine.Engine2 Engine.LocalBase
-  Engine.InvDef Engine.InvMain Engine.InvProps Engine.RunDepth2 Engine.RunDepth3 Engine.RunDepth4.
+  Engine.InvDef Engine.InvMain Engine.InvProps Engine.RunDepth2 Engine.RunDepth3 Engine.RunDepth4 Engine.RunDepth6.
 Import ListNotations.
 Open Scope N_scope.
 
@@ -144,6 +144,29 @@ Example C02_unlock_full_release_reachable_nonvacuous :
        /\ aget (store (fst (run (init_db 0 255) exd_hist))) 2 = Some l /\ l_locked l = 1
        /\ leader (fst (run (init_db 0 255) exd_hist)) = true.
 Proof. split; [exact exd_core|do 2 eexists; vm_compute; repeat split; reflexivity]. Qed.
+
+(* the reply's lcount is the new `locked` even when the key's manager is removed with its last record: then `locked`
+   was exactly the depth of the hold *)
+Theorem C02_full_release_count_reachable : forall t0 a acts, core acts ->
+  let s := fst (run (init_db t0 a) acts) in
+  forall conn c m r l s' ev w,
+  unlock_step s conn c = (s', ev, w) ->
+  aget (mgrs s) (c_key c) = Some m ->
+  negb (leader s) && negb (has (c_flag c) UNLOCK_FLAG_FROM_AOF) = false ->
+  get_locked_lock s m (c_lockid c) = Some r -> aget (store s) r = Some l ->
+  (l_locked l = 1 \/ c_rcount c = 0 \/ has (c_tflag c) TF_PRIORITY = true) -> c_data c = None ->
+  m_locked (getm s' (c_key c)) = m_locked m - l_locked l.
+Proof. exact reach_full_release_count. Qed.
+Goal True. idtac "ASSUMPTIONS-OF C02_full_release_count_reachable". Abort.
+Print Assumptions C02_full_release_count_reachable.
+(* a single hold of depth 2 is released in full: the key's manager is removed, lcount 0 = 2 - 2 *)
+Example C02_full_release_count_reachable_nonvacuous :
+  core [AReq 1 (exd_lock 1 7 3); AReq 1 (exd_lock 2 7 3)]
+  /\ exists s' w, unlock_step (fst (run (init_db 0 255) [AReq 1 (exd_lock 1 7 3); AReq 1 (exd_lock 2 7 3)])) 1
+                     (mkCmd false 9 0 7 5 0 0 0 0 0 0 None)
+                   = (s', [ERelease 5 1 2; EReply 1 9 R_SUCCED 0 0 7 0 0 None], w)
+                   /\ m_locked (getm (fst (run (init_db 0 255) [AReq 1 (exd_lock 1 7 3); AReq 1 (exd_lock 2 7 3)])) 5) = 2.
+Proof. split; [split; [repeat constructor|vm_compute; reflexivity]|do 2 eexists; vm_compute; split; reflexivity]. Qed.
 
 (* ================================================================== (iii) Lock by the holder *)
 Theorem C02_relock_new_level : forall s conn c m r l s' ev w,
@@ -457,3 +480,131 @@ Example C02_unlock_first_frame_reachable_nonvacuous :
   /\ exists m, aget (mgrs (fst (run (init_db 0 255) exd_hist))) 5 = Some m
                /\ get_locked_lock (fst (run (init_db 0 255) exd_hist)) m 9 = None /\ m_cur m = Some 1 /\ m_locked m = 4.
 Proof. split; [exact exd_core|eexists; vm_compute; repeat split; reflexivity]. Qed.
+
+(* ================================================================== holds are not lost *)
+(* Lock: a hold other than the one the lookup finds stays stored with its depth.  (A record is freed only when its
+   reference count reaches zero; the only reference of a hold a Lock request can drop is a dead wait-queue entry, so
+   the side condition asks for a count >= 2 when the hold also sits in the key's wait queue.) *)
+Theorem C02_lock_keeps_holds : forall s conn c s' ev w r l,
+  lock_step s conn c = (s', ev, w) ->
+  aget (store s) r = Some l -> 0 < l_locked l -> r <> next s ->
+  (forall m, aget (mgrs s) (c_key c) = Some m -> get_locked_lock s m (c_lockid (lock_target s c m)) <> Some r) ->
+  NoDup (m_wq (getm s (c_key c))) ->
+  (In r (m_wq (getm s (c_key c))) -> 2 <= l_refc l /\ l_refc l < 256) ->
+  exists l', aget (store s') r = Some l' /\ l_locked l' = l_locked l /\ l_key l' = l_key l /\ l_cmd l' = l_cmd l
+             /\ l_ack l' = l_ack l.
+Proof. exact lock_keeps_holds. Qed.
+Goal True. idtac "ASSUMPTIONS-OF C02_lock_keeps_holds". Abort.
+Print Assumptions C02_lock_keeps_holds.
+Example C02_lock_keeps_holds_nonvacuous :
+  exists l m, aget (store exd_state) 2 = Some l /\ l_locked l = 1 /\ next exd_state = 3
+    /\ aget (mgrs exd_state) 5 = Some m /\ get_locked_lock exd_state m 7 = Some 1 /\ m_wq (getm exd_state 5) = [].
+Proof. do 2 eexists. vm_compute. repeat split; reflexivity. Qed.
+
+Theorem C02_lock_keeps_holds_reachable : forall t0 a acts, core acts ->
+  let s := fst (run (init_db t0 a) acts) in
+  forall conn c s' ev w r l,
+  lock_step s conn c = (s', ev, w) ->
+  aget (store s) r = Some l -> 0 < l_locked l ->
+  (forall m, aget (mgrs s) (c_key c) = Some m -> get_locked_lock s m (c_lockid (lock_target s c m)) <> Some r) ->
+  exists l', aget (store s') r = Some l' /\ l_locked l' = l_locked l /\ l_key l' = l_key l /\ l_cmd l' = l_cmd l
+             /\ l_ack l' = l_ack l.
+Proof. exact reach_lock_keeps_holds. Qed.
+Goal True. idtac "ASSUMPTIONS-OF C02_lock_keeps_holds_reachable". Abort.
+Print Assumptions C02_lock_keeps_holds_reachable.
+(* LockId 7 re-locks: the hold of LockId 8 (record 2) is not the one found *)
+Example C02_lock_keeps_holds_reachable_nonvacuous :
+  core exd_hist
+  /\ exists l m, aget (store (fst (run (init_db 0 255) exd_hist))) 2 = Some l /\ l_locked l = 1
+       /\ aget (mgrs (fst (run (init_db 0 255) exd_hist))) 5 = Some m
+       /\ get_locked_lock (fst (run (init_db 0 255) exd_hist)) m 7 = Some 1.
+Proof. split; [exact exd_core|do 2 eexists; vm_compute; repeat split; reflexivity]. Qed.
+
+(* UnLock: a hold other than the one released (the one the lookup finds; the current lock under UNLOCK_FLAG_FIRST when
+   the lookup finds nothing) stays stored with its depth *)
+Theorem C02_unlock_keeps_holds : forall s conn c s' ev w r l,
+  unlock_step s conn c = (s', ev, w) ->
+  aget (store s) r = Some l -> 0 < l_locked l ->
+  (forall m, aget (mgrs s) (c_key c) = Some m -> get_locked_lock s m (c_lockid c) <> Some r) ->
+  (forall m, aget (mgrs s) (c_key c) = Some m -> get_locked_lock s m (c_lockid c) = None ->
+             has (c_flag c) UNLOCK_FLAG_FIRST = true -> m_cur m <> Some r) ->
+  (has (c_flag c) UNLOCK_FLAG_CANCEL_WAIT = true ->
+     l_timeouted l = true /\ NoDup (m_wq (getm s (c_key c)))
+     /\ (In r (m_wq (getm s (c_key c))) -> 2 <= l_refc l /\ l_refc l < 256)) ->
+  exists l', aget (store s') r = Some l' /\ l_locked l' = l_locked l /\ l_key l' = l_key l /\ l_cmd l' = l_cmd l
+             /\ l_ack l' = l_ack l.
+Proof. exact unlock_keeps_holds. Qed.
+Goal True. idtac "ASSUMPTIONS-OF C02_unlock_keeps_holds". Abort.
+Print Assumptions C02_unlock_keeps_holds.
+Example C02_unlock_keeps_holds_nonvacuous :
+  exists l m, aget (store exd_state) 2 = Some l /\ l_locked l = 1
+    /\ aget (mgrs exd_state) 5 = Some m /\ get_locked_lock exd_state m 7 = Some 1
+    /\ has (c_flag (mkCmd false 9 0 7 5 0 0 0 0 0 0 None)) UNLOCK_FLAG_CANCEL_WAIT = false.
+Proof. do 2 eexists. vm_compute. repeat split; reflexivity. Qed.
+
+Theorem C02_unlock_keeps_holds_reachable : forall t0 a acts, core acts ->
+  let s := fst (run (init_db t0 a) acts) in
+  forall conn c s' ev w r l,
+  unlock_step s conn c = (s', ev, w) ->
+  aget (store s) r = Some l -> 0 < l_locked l ->
+  (forall m, aget (mgrs s) (c_key c) = Some m -> get_locked_lock s m (c_lockid c) <> Some r) ->
+  (forall m, aget (mgrs s) (c_key c) = Some m -> get_locked_lock s m (c_lockid c) = None ->
+             has (c_flag c) UNLOCK_FLAG_FIRST = true -> m_cur m <> Some r) ->
+  exists l', aget (store s') r = Some l' /\ l_locked l' = l_locked l /\ l_key l' = l_key l /\ l_cmd l' = l_cmd l
+             /\ l_ack l' = l_ack l.
+Proof. exact reach_unlock_keeps_holds. Qed.
+Goal True. idtac "ASSUMPTIONS-OF C02_unlock_keeps_holds_reachable". Abort.
+Print Assumptions C02_unlock_keeps_holds_reachable.
+(* LockId 7 releases all its levels: the hold of LockId 8 (record 2, depth 1) is still there *)
+Example C02_unlock_keeps_holds_reachable_nonvacuous :
+  core exd_hist
+  /\ exists l m l', aget (store (fst (run (init_db 0 255) exd_hist))) 2 = Some l /\ l_locked l = 1
+       /\ aget (mgrs (fst (run (init_db 0 255) exd_hist))) 5 = Some m
+       /\ get_locked_lock (fst (run (init_db 0 255) exd_hist)) m 7 = Some 1
+       /\ aget (store (fst (fst (unlock_step (fst (run (init_db 0 255) exd_hist)) 1 (mkCmd false 9 0 7 5 0 0 0 0 0 0 None))))) 2 = Some l'
+       /\ l_locked l' = 1.
+Proof. split; [exact exd_core|do 3 eexists; vm_compute; repeat split; reflexivity]. Qed.
+
+(* (iv) in full: a request whose LockId holds nothing on the key leaves every hold of every key stored and unchanged
+   (UnLock with UNLOCK_FLAG_FIRST: every hold but the key's current lock) *)
+Theorem C02_lock_unfound_holds_reachable : forall t0 a acts, core acts ->
+  let s := fst (run (init_db t0 a) acts) in
+  forall conn c s' ev w,
+  lock_step s conn c = (s', ev, w) ->
+  has (c_flag c) LOCK_FLAG_SHOW = false ->
+  (forall m, aget (mgrs s) (c_key c) = Some m -> get_locked_lock s m (c_lockid c) = None) ->
+  forall r l, aget (store s) r = Some l -> 0 < l_locked l ->
+  exists l', aget (store s') r = Some l' /\ l_locked l' = l_locked l /\ l_key l' = l_key l /\ l_cmd l' = l_cmd l
+             /\ l_ack l' = l_ack l.
+Proof. exact reach_lock_unfound_holds. Qed.
+Goal True. idtac "ASSUMPTIONS-OF C02_lock_unfound_holds_reachable". Abort.
+Print Assumptions C02_lock_unfound_holds_reachable.
+Example C02_lock_unfound_holds_reachable_nonvacuous :
+  core exd_hist
+  /\ exists m l1 l2, aget (mgrs (fst (run (init_db 0 255) exd_hist))) 5 = Some m
+       /\ get_locked_lock (fst (run (init_db 0 255) exd_hist)) m 9 = None
+       /\ aget (store (fst (run (init_db 0 255) exd_hist))) 1 = Some l1 /\ l_locked l1 = 3
+       /\ aget (store (fst (run (init_db 0 255) exd_hist))) 2 = Some l2 /\ l_locked l2 = 1.
+Proof. split; [exact exd_core|do 3 eexists; vm_compute; repeat split; reflexivity]. Qed.
+
+Theorem C02_unlock_unfound_holds_reachable : forall t0 a acts, core acts ->
+  let s := fst (run (init_db t0 a) acts) in
+  forall conn c s' ev w,
+  unlock_step s conn c = (s', ev, w) ->
+  (forall m, aget (mgrs s) (c_key c) = Some m -> get_locked_lock s m (c_lockid c) = None) ->
+  forall r l, aget (store s) r = Some l -> 0 < l_locked l ->
+  (forall m, aget (mgrs s) (c_key c) = Some m -> has (c_flag c) UNLOCK_FLAG_FIRST = true -> m_cur m <> Some r) ->
+  exists l', aget (store s') r = Some l' /\ l_locked l' = l_locked l /\ l_key l' = l_key l /\ l_cmd l' = l_cmd l
+             /\ l_ack l' = l_ack l.
+Proof. exact reach_unlock_unfound_holds. Qed.
+Goal True. idtac "ASSUMPTIONS-OF C02_unlock_unfound_holds_reachable". Abort.
+Print Assumptions C02_unlock_unfound_holds_reachable.
+(* unlock-first by LockId 9: record 2 is not the current lock and keeps depth 1 *)
+Example C02_unlock_unfound_holds_reachable_nonvacuous :
+  core exd_hist
+  /\ exists m l2 l2', aget (mgrs (fst (run (init_db 0 255) exd_hist))) 5 = Some m
+       /\ get_locked_lock (fst (run (init_db 0 255) exd_hist)) m 9 = None /\ m_cur m = Some 1
+       /\ aget (store (fst (run (init_db 0 255) exd_hist))) 2 = Some l2 /\ l_locked l2 = 1
+       /\ aget (store (fst (fst (unlock_step (fst (run (init_db 0 255) exd_hist)) 3 (mkCmd false 5 1 9 5 0 0 0 0 0 0 None))))) 2 = Some l2'
+       /\ l_locked l2' = 1.
+Proof. split; [exact exd_core|do 3 eexists; vm_compute; repeat split; reflexivity]. Qed.
